@@ -194,7 +194,7 @@ def describe(c, code, cl, beh):
 
 def run(ctx):
     rnd = random.Random(ctx.seed * 7919 + 16)
-    n = 110 if ctx.tier == "quick" else 2500
+    n = 110 if ctx.tier == "quick" else 2000
     fx_root = os.path.join(ctx.work, "fx")
     os.makedirs(fx_root)
     fx = _load_fixture(fx_root)
